@@ -10,8 +10,8 @@ claimed = {
          "Configuration lattice x schedules; absence of markers on the wire is decided over the complete byte record of the run, the policy half by whether any protocol reply (server side) or any protocol byte (client side) follows an unacceptable handshake."),
  "C06": ("exploration", "8 C06", "seeded deterministic simulation: scripted route owners, histories of register/acknowledged-remove/re-register interleaved with HTTP (keep-alive), SNI and CONNECT requests, checked against a reference most-specific matcher written from the statement",
          "Route tables with exact/wildcard/catch-all hosts, nested locations, user restrictions on http/https/tcpmux vhosts; every request's serving backend (which stamps and records) is compared with the reference owner; removed routes must stay silent."),
- "C07": ("exploration", "8 C07", "seeded deterministic simulation in the routes world: protected, unprotected and user-routed routes on the same hosts; request-shape enumeration (origin/absolute form, CONNECT, Authorization/Proxy-Authorization variants, malformed credentials); negative oracle on what protected backends saw",
-         "The quantifier is inputs x configurations; decided inside the simulator because the observable spans requester, frps and the backend; a protected backend must have seen a request only if it carried exactly its credentials."),
+ "C07": ("exploration", "8 C07", "seeded deterministic simulation: (routes world) protected, unprotected and user-routed http/tcpmux routes on the same hosts with request-shape enumeration and a negative oracle on what protected backends saw; (services world) real frps dashboard API, frpc admin API and the static_file, http_proxy and socks5 client plugins behind real tcp proxies, each with its own credentials, 4-20 credential variants per service; served / tunnelled / authenticated implies exact credentials, refusals are challenges or closes that reach no target and no state-changing handler",
+         "The quantifier is inputs x configurations; decided inside the simulator because the observable spans requester, frps, frpc, plugin and the backend or target behind it."),
  "C14": ("fault_enumeration", "8 C14", "seeded deterministic simulation on the fake clock: silent/blackholed scripted peers against real frps, silent scripted server against real frpc, real frpc+frps under resets, blackholes (2 s - 2 h), server crash/restart, absent/refusing/flapping server; detection-time, never-false (simulated days), bounded-healing and retry-rate oracles",
          "Fault sequences and their timing are enumerated per run; time bounds are computed from the configured timeouts of the run plus stated slack; simulated days of heartbeats cost milliseconds."),
  "C19": ("exploration", "8 C19", "seeded deterministic simulation: real frpc against a scripted server with per-proxy reply policies; reload histories and probe-outcome schedules (accept/refuse/blackhole per dial, status/stall per request); message-trace, status-API and work-connection oracles against a configured-and-healthy model",
